@@ -24,6 +24,7 @@ Explains(e) ==
      \/ e.op = "tz.add"    /\ OptDT(e.r) = AddDt(e.u, J(e.d)) /\ e.off2 = e.off                \* zone-aware: same instants whatever the offset
      \/ e.op = "tz.sub"    /\ OptDT(e.r) = SubDt(e.u, J(e.d)) /\ e.off2 = e.off
      \/ e.op = "tz.since"  /\ J(e.r) = SinceDt(e.a, e.b)
+     \/ e.op = "tz.cmp"    /\ e.c = CmpDt(e.a, e.b) /\ e.pc = e.c /\ e.same = 0 /\ (CmpDt(e.a, e.b) # 0 => e.max_is_b = (CmpDt(e.a, e.b) < 0))
      \/ e.op = "date.add_days" /\ e.r = AddDaysBig(e.n, J(e.k))
      \/ e.op = "date.sub_days" /\ e.r = AddDaysBig(e.n, Neg(J(e.k)))
      \/ e.op = "date.add_dur"  /\ e.r = DateAddDur(e.n, J(e.d))
